@@ -691,8 +691,8 @@ def gen_lists(r, tier):
 def harness_env(script):
     # OwenStateSpace::getPath leaks its scratch Dubins state on some return paths (seen by LeakSanitizer on the
     # unchanged tree; not a C05 matter, see notes/C05.md): leak detection is off for the Owen scripts only.
-    if " space=owen " in script[0]:
-        return {"ASAN_OPTIONS": "detect_leaks=0:abort_on_error=0:exitcode=99"}
+    # (OwenStateSpace::getPath used to leak its scratch state when it found no path; fixed in /repo d075cf1a8, so leak
+    # detection is on for every script again)
     return None
 
 
@@ -973,7 +973,8 @@ def hinted_scripts(ck, hbin, r, tier):
             n = int(kv["n"])
             if n > 1500:
                 continue
-            hint = n if cfg["space"] not in D3 else (n, int(kv.get("path", "1")))
+            # Dubins / symmetric Dubins / Reeds-Shepp: no hint, the model computes n from C14's bit-exact distance models
+            hint = None if cfg["space"] in ("dubins", "dubinssym", "rs") else n if cfg["space"] not in D3 else (n, int(kv.get("path", "1")))
             segs["%s %s" % (st(a), st(b))] = (bits2f(kv["dist"]), bits2f(kv["L"]))
             for kind in ["none", "end", r.choice(KINDS), r.choice(KINDS)]:
                 lines += group(a, b, rnd_inv(r, n, kind), hint=hint)
@@ -1138,6 +1139,14 @@ def replay(ck, data):
     hbin = ck.build_harness("motion", ["motion.cpp"], link_ompl=True)
     ck.lean_build([DRIVER])
     script = data["script"]
+    if " space=tb " in script[0]:          # harness-only scenario (TangentBundleSpaceInformation wrapper, F123)
+        o, rc, err = run_harness(ck, hbin, script)
+        for ln, ol in zip(script[1:], (o or []) + ["<missing>"] * len(script)):
+            print("%-60s impl:  %s" % (ln[:60], ol))
+        bad = rc != 0 or any(("lvs=" in l and "lvs=untouched" not in l) or "first=changed" in l or l.startswith("v=0") for l in (o or []))
+        print("PROPERTY FAILS: a successful three-argument check touched the caller's lastValid.first / crashed re-projecting it (rc=%s)" % rc
+              if bad else "no failure on the current tree")
+        return 1 if bad else 0
     impl, rc, err, model = run_script(ck, hbin, script)
     fail, st_ = oracle(script, impl)
     if fail is None and st_["narrow"]:
@@ -1171,7 +1180,9 @@ MANIFEST = {
             "success, the bisection queue visits every index exactly once (well-founded queue measure), exactly one counter "
             "advances by one (with or without a Dubins3D path); getMotionStates returns min(size, wanted) states, slot p holds "
             "exactly the p-th element of [s1]+[interpolate j/(count+1)]+[s2], never writes past a provided vector, and with the "
-            "callers' count = n-1 (incl. the UINT_MAX wrap) yields exactly checkMotion's interior points.  Tied to libompl by line-by-line differential runs of the real validators against the compiled "
+            "callers' count = n-1 (incl. the UINT_MAX wrap) yields exactly checkMotion's interior points; ConstrainedMotionValidator "
+            "(subdivision = the manifold traversal) as coded and as fixed: verdict, forms agree, one counter, lastValid = last "
+            "traversal state with a valid prefix; the TangentBundleSpaceInformation wrapper.  Tied to libompl by line-by-line differential runs of the real validators against the compiled "
             "model with a scripted, recording StateValidityChecker (verdict, fraction bits, last-valid state vs interpolant, "
             "full query order, counters; index-set and geometric box predicates; getMotionStates slot by slot incl. under-sized "
             "vectors), plus an independent Python oracle of the property on the implementation's outputs.",
@@ -1179,8 +1190,8 @@ MANIFEST = {
             "state->index decoding.  interpolate/distance/isValid are oracles (C07/C06/C14).  n = 0 with an invalid end state "
             "(fraction -1/0) is excluded from the [0,1) clause and only exercised.  F7 (Dubins/RS/Dubins3D two-argument check did "
             "not count an invalid end state) is fixed in /repo; `counters_old_fails` keeps the witness for the old code.  F75 "
-            "(Dubins3D returns false without counting when getPath finds no path) is a recorded finding: the model follows the "
-            "proposed fix, `counters_nopath_old_fails` is the witness, lastValid stays unset there.",
+            "(Dubins3D returned false without counting when getPath finds no path) is fixed in /repo (449563fe0): the model follows "
+            "the fixed code, `counters_nopath_old_fails` is the witness about the former code, lastValid stays unset there.",
     "technique": "Lean 4 proof (induction on the scan; well-founded induction on the bisection queue; permutation of the index range) "
                  "+ differential correspondence + spec oracle",
 }
